@@ -29,6 +29,7 @@ type caseA struct {
 	Spec       cat.Spec `json:"spec"`
 	Caller     string   `json:"caller"` // alice (owner of A only) or root
 	Param      string   `json:"param"`  // key, bucket, copy-source, prefix, marker, start-after, continuation-token, key-marker, version-id-marker, upload-id-marker, versionId, uploadId, partNumber, delimiter, admin-bucket, admin-owner, admin-access, delete-key, delete-version
+	Dup        int      `json:"dup,omitempty"` // query parameters: 1 = a harmless second occurrence after the hostile one, 2 = before it
 	Hostile    string   `json:"hostile"`  // the string as the client means it (after one level of percent-decoding)
 	Spelling   string   `json:"spelling"` // plain, raw, pct, pct-lower, double, mixed
 	Proc       bool     `json:"proc,omitempty"`
@@ -233,6 +234,22 @@ func build(w *world, c caseA) (*s3c.Req, string, error) {
 	default: // a query parameter of that name
 		setQ(c.Param, h)
 	}
+	// a second, harmless occurrence of the same query parameter before or after the hostile one: whatever a
+	// check looks at, the handler must not act on the other
+	if c.Dup != 0 {
+		for i := range r.Query {
+			if r.Query[i].V != h || r.Query[i].K == "" {
+				continue
+			}
+			benign := s3c.KV{K: r.Query[i].K, V: "x"}
+			if c.Dup == 1 {
+				r.Query = append(r.Query[:i+1], append([]s3c.KV{benign}, r.Query[i+1:]...)...)
+			} else {
+				r.Query = append(r.Query[:i], append([]s3c.KV{benign}, r.Query[i:]...)...)
+			}
+			break
+		}
+	}
 	r.Sign(s3c.SignOpt{Creds: creds(c.Caller), Region: gw.Region, Time: time.Now().UTC()})
 	return r, h, nil
 }
@@ -402,6 +419,7 @@ func genCase(t *rapid.T) caseA {
 		return s
 	})).Draw(t, "hostile")
 	c.Spelling = rapid.SampledFrom([]string{"plain", "plain", "raw", "raw", "pct", "pct-lower", "double", "mixed"}).Draw(t, "spelling")
+	c.Dup = rapid.SampledFrom([]int{0, 0, 0, 1, 2}).Draw(t, "dup")
 	return c
 }
 
